@@ -137,7 +137,8 @@ class Monitor(object):
                 key = 'KF-retry-fires-while-attempt-pending'
             elif k == 'start' and pending_older:
                 key = 'KF-start-while-attempt-pending'
-            elif k == 'fire' and ev.get('t') == 'idlehold' and pending_older:
+            elif ((k == 'fire' and ev.get('t') == 'idlehold') or k == 'boot') and pending_older:
+                # automatic start (idle-hold expiry, or the agent's deferred boot call) while an attempt is pending
                 key = 'KF-idlehold-fires-while-attempt-pending'
             else:
                 key = 'other:%s' % k
